@@ -7,11 +7,13 @@ WP lmo, part 1: the L2 control-flow models of `pi_legendre`, `pi_meissel`, `pi_l
 * `Tables.Valid` (what the three vectors of pi_lmo1..5 have to hold), `s1Lmo1_eq` (`= Spec.S1`), `s2Lmo1_eq`
   (`= Spec.S2`: the double loop over `b < π y`, `m ∈ (y / p_b, y]` with `lpf[m] > p_b` IS the special-leaf set),
   `piLmo1With_eq_pi`
-The vectors built by `tablesFor` are proved valid in PcProofs/SimpleAlgsTables.lean.
+`tablesFor_valid`: the vectors built by `tablesFor` (sieve primes, `generateLpf`, `generateMoebius`) are valid;
+  `piLmo1_eq_pi`.
 -/
 import PcModel.SimpleAlgs
 import PcProofs.L1Routes
 import PcProofs.GeneratePrimes
+import PcProofs.GenerateMoebius
 
 namespace Pc.SimpleAlgs
 open Nat Finset Classical
@@ -306,5 +308,37 @@ theorem lmo1_core {T : Tables} {x : ℕ} (hx : 2 ≤ x) (hT : T.Valid (irootN 3 
   rw [s1Lmo1_eq hT hv (getC_le_pi _) (getC_le_eight _) hc.hy, s2Lmo1_eq hT hv hc.hy, hT.piY,
     NT.P2_eq hv hc.hs (hc.div_succ h3)]
   exact (Spec.pi_lmo h3 hyx hr2 (getC_le_pi _)).symm
+
+/-- the vectors the models build (`generate_primes`, `generate_lpf`, `generate_moebius`) are valid -/
+theorem tablesFor_valid (y : ℕ) : (tablesFor y).Valid y := by
+  have hv := NT.build_valid y
+  have hprimes : (tablesFor y).primes = (NT.build y).primes := rfl
+  have hp : ∀ i, (tablesFor y).p i = (NT.build y).p i := fun _ => rfl
+  refine ⟨?_, ?_, ?_, ?_, ?_, ?_⟩
+  · show (NT.build y).primes.size - 1 = π y
+    show (#[0] ++ (primesUpTo y).toArray).size - 1 = π y
+    rw [primesUpTo_eq_map_nth]
+    simp
+  · rw [hp]; exact hv.p_zero
+  · intro i hi1 hi
+    rw [hp]; exact hv.p_eq i hi1 hi
+  · intro n hn1 hn
+    show (generateMoebius y).getD n 0 = μ n
+    rw [Array.getD_eq_getD_getElem?, generateMoebius_correct y n hn1 hn]; rfl
+  · intro hy
+    show 19 < (generateLpf y).getD 1 0
+    rw [Array.getD_eq_getD_getElem?, generateLpf_correct y 1 hy]
+    simp [int32Max]
+  · intro n hn2 hn
+    show (generateLpf y).getD n 0 = n.minFac
+    rw [Array.getD_eq_getD_getElem?, generateLpf_correct y n hn, if_neg (by omega), if_neg (by omega)]; rfl
+
+/-- **pi_lmo1** (control flow of src/lmo/pi_lmo1.cpp: μ / lpf tables, S1 loop, S2 double loop calling phi)
+    returns π(x) for every x -/
+theorem piLmo1_eq_pi (x : ℤ) : piLmo1 x = π x.toNat := by
+  unfold piLmo1
+  split_ifs with h
+  · rw [pi_toNat_of_lt_two h]; rfl
+  · exact lmo1_core (by omega) (tablesFor_valid _)
 
 end Pc.SimpleAlgs
